@@ -14,7 +14,8 @@ RULE = ('three streams. ulist: raw lists (len 0-7, repeats likely) over a pool o
         'x op in {-, &, [list], [tuple], .attr, +, |, relabel, keys(), keys() -/&/+} x key selections present/absent/mixed/repeated/empty in every accepted '
         'spelling (str, list, tuple, None) x other operand of every mapping class. call: Dict(**base)(**kw) for EVERY loop-free dependency graph on <= 4 '
         'derived keys up to renaming (1+1+3+16+218 graphs) in EVERY keyword order, plus sampled graphs on 5 and 6 keys in all 120 / 720 orders, self-loops, '
-        'references to base keys / constants / the implicit key parameter, and a malformed stream with missing arguments; callables are free terms '
+        'references to base keys / constants / the implicit key parameter, mapping entries / constants / derived keys named like the names the implementation injects or uses '
+        'internally (key, value, args, kwargs, function, res, callables, keys, cls), and a malformed stream with missing arguments; callables are free terms '
         '[k, arg1, ...] so any change of evaluation order or argument is visible. Compared in Coq: result (class, ordered items / values / error), the operand '
         'and the other operand after the call. The oracle recomputes the result from the property text with plain list/dict code and checks class, value identity '
         'and operand immutability. non-trivial = repeats or overlap (ulist), mixed / absent / repeated selection or overlapping update (dict), >= 2 callables '
@@ -25,7 +26,9 @@ EXPLANATION = ('theorems C16_* (coq/props/C16.v) hold for all lists over any typ
 TRUSTED = ['modelled, not verified: CPython dict (insertion-ordered map with in-place assignment), set iteration order (any permutation; proved irrelevant), '
            'copy.copy of a dict subclass (fresh object with the same items), inspect-based getargs (names of positional parameters)']
 ASSUMPTIONS = ['elements are hashable with a lawful == (no NaN)', 'mapping keys are str without dots, values are leaves (not dicts); nested merge is C15',
-               'callables passed to Dict.__call__ take positional parameters without defaults and do not raise']
+               'callables passed to Dict.__call__ take positional parameters without defaults and do not raise',
+               "no mapping entry or derived key is named 'self': Python binds it to the method's own self parameter (Dict.__call__(self, **kwargs), "
+               "wrapper.__call__(self, *args, **kwargs)), so Dict(...)(self = ...) and any Dict.apply on a mapping holding an entry 'self' raise TypeError"]
 EXHAUSTIVE = {'quick': False, 'thorough': False}
 LEVEL_TEXT = ('machine-checked Coq theorems (C16_*) for all lists / mappings / dependency graphs and every keyword permutation, about executable models of '
               'ulist, dictattr and Dict.__call__; the models are compared with the real classes inside Coq on every loop-free dependency graph with <= 4 '
@@ -507,8 +510,45 @@ def gen_call(rng, tier):
             out.append(graph_case(rng, n, g, extra=rng.random() < 0.5))
     return out
 
+# names the implementation injects ('key' = the name being computed) or uses internally: as entries of the mapping and as
+# derived keys they must behave like any other name - the mapping's own value wins over the injected default
+COLLIDE = ['key', 'value', 'args', 'kwargs', 'function', 'res', 'callables', 'keys', 'cls']
+INCLUDE_SELF_KEY = False    # a mapping entry named 'self' makes every Dict.apply fail (TypeError: multiple values for 'self'); see ASSUMPTIONS
+
+def gen_collide(rng, tier):
+    out = []
+    names = COLLIDE + (['self'] if INCLUDE_SELF_KEY else [])
+    for nm in names:
+        for cls in ('Dict', 'UD'):
+            # the name is an entry of the mapping and a parameter of the callables
+            out.append({'kind': 'call', 'cls': cls, 'base': [[nm, 2], ['a', 1]], 'kw': [['k1', {'f': [nm]}]], 'perms': 'all'})
+            out.append({'kind': 'call', 'cls': cls, 'base': [['a', 1], [nm, 2]], 'kw': [['k1', {'f': [nm, 'a']}], ['k2', {'f': ['k1', nm]}]], 'perms': 'all'})
+            # the name is a constant among the keywords
+            out.append({'kind': 'call', 'cls': cls, 'base': [['a', 1]], 'kw': [[nm, {'c': 7}], ['k1', {'f': ['a', nm]}]], 'perms': 'all'})
+            if nm != 'self':
+                # the name is itself a derived key, with and without an older value in the mapping
+                out.append({'kind': 'call', 'cls': cls, 'base': [['a', 1]], 'kw': [[nm, {'f': ['a']}], ['z', {'f': [nm]}]], 'perms': 'all'})
+                out.append({'kind': 'call', 'cls': cls, 'base': [['a', 1], [nm, 2]], 'kw': [[nm, {'f': ['a']}], ['z', {'f': [nm, 'a']}], ['y', {'f': ['z']}]], 'perms': 'all'})
+    # the injected default key = <name being computed> is visible exactly when the mapping has no entry named key
+    for cls in ('Dict', 'UD'):
+        out.append({'kind': 'call', 'cls': cls, 'base': [['a', 1]], 'kw': [['k1', {'f': ['key']}], ['k2', {'f': ['key', 'k1']}]], 'perms': 'all'})
+        out.append({'kind': 'call', 'cls': cls, 'base': [['key', 2]], 'kw': [['k1', {'f': ['key']}], ['k2', {'f': ['k1', 'key']}], ['k3', {'f': []}]], 'perms': 'all'})
+        out.append({'kind': 'call', 'cls': cls, 'base': [['a', 1]], 'kw': [['key', {'c': 5}], ['k1', {'f': ['key']}], ['k2', {'f': ['key', 'a']}]], 'perms': 'all'})
+    for _ in range(20 if tier == 'quick' else 300):
+        n = rng.choice([2, 3, 4])
+        case = graph_case(rng, n, rand_dag(rng, n), cls=rng.choice(['Dict', 'UD']))
+        nm = rng.choice(names if not INCLUDE_SELF_KEY else COLLIDE)
+        for kv in case['kw']:
+            if rng.random() < 0.6: kv[1]['f'].insert(rng.randrange(len(kv[1]['f']) + 1), nm)
+        r = rng.random()
+        if r < 0.5: case['base'].append([nm, 3])
+        elif r < 0.75: case['kw'].insert(rng.randrange(len(case['kw']) + 1), [nm, {'f': ['p']}])
+        elif nm != 'key': case['kw'].append([nm, {'c': 4}])
+        out.append(case)
+    return out
+
 def gen_cases(rng, tier):
-    return gen_ulist(rng, tier) + gen_dict(rng, tier) + gen_call(rng, tier)
+    return gen_ulist(rng, tier) + gen_dict(rng, tier) + gen_call(rng, tier) + gen_collide(rng, tier)
 
 def shrink(case):
     k = case['kind']
